@@ -4,6 +4,7 @@ import (
 	"bytes"
 	"fmt"
 	"io"
+	"strings"
 	"sync/atomic"
 	"testing"
 	"testing/iotest"
@@ -178,6 +179,69 @@ func checkCutsLoop(dump []byte, f *bc.File, all bool, extra []int, cur, curMode 
 	return tried, classes, ""
 }
 
+// checkHeaders: whatever does not start with the magic bytes, or declares a
+// version this build does not support, is refused with an error, whatever
+// follows and however much of it: the complete dump of the case (possibly
+// tens of kilobytes) with a damaged header, and plain text (the program's own
+// source, also behind a blank line) in place of a dump. Under a watchdog.
+func checkHeaders(dump []byte, src string) string {
+	type cand struct {
+		what string
+		data []byte
+	}
+	var cands []cand
+	mod := func(what string, at int, b ...byte) {
+		d := append([]byte{}, dump...)
+		copy(d[at:], b)
+		cands = append(cands, cand{what, d})
+	}
+	mod("magic 00 00", 0, 0, 0)
+	mod("magic FC 6D", 0, 0xFC, 0x6D)
+	mod("magic 6C FC", 0, 0x6C, 0xFC)
+	mod("magic 'de'", 0, 'd', 'e')
+	mod("magic LF LF", 0, '\n', '\n')
+	mod("version 0.1", 2, 0, 1)
+	mod("version 2.0", 2, 2, 0)
+	mod("version 1.2", 2, 1, 2)
+	mod("version 255.255", 2, 255, 255)
+	pad := src + strings.Repeat("# text\n", 6)
+	cands = append(cands, cand{"the source text instead of a dump", []byte(pad)}, cand{"a blank line and the source text", []byte("\n" + pad)},
+		cand{"CR LF and the source text", []byte("\r\n" + pad)}, cand{"blanks", []byte(strings.Repeat(" ", 64))}, cand{"line feeds", []byte(strings.Repeat("\n", 5000))})
+	done := make(chan string, 1)
+	var cur int64
+	go func() {
+		for i, c := range cands {
+			atomic.StoreInt64(&cur, int64(i))
+			for mode := 0; mode < 2; mode++ {
+				var r io.Reader = bytes.NewReader(c.data)
+				if mode == 1 {
+					if len(c.data) > 8192 {
+						continue
+					}
+					r = iotest.OneByteReader(r)
+				}
+				_, err, pan := loadProg(r, "x", bcl.OptOutput(io.Discard), bcl.OptLogger(io.Discard))
+				if pan != nil {
+					done <- fmt.Sprintf("LoadProg panicked on %s (%d bytes): %v", c.what, len(c.data), pan)
+					return
+				}
+				if err == nil {
+					done <- fmt.Sprintf("LoadProg accepted %s (%d bytes)", c.what, len(c.data))
+					return
+				}
+			}
+		}
+		done <- ""
+	}()
+	select {
+	case v := <-done:
+		return v
+	case <-time.After(30 * time.Second):
+		c := cands[atomic.LoadInt64(&cur)]
+		return fmt.Sprintf("LoadProg does not return (30 s) on %s (%d bytes)", c.what, len(c.data))
+	}
+}
+
 type caseC13 struct {
 	dumpCase
 	Dump []byte `json:"dump,omitempty"`
@@ -203,6 +267,9 @@ func checkC13(c caseC13, extra []int, forceAll bool) (viol string, nontrivial bo
 	tried, classes, viol := checkCuts(pr.dump, f, all, extra)
 	for k, n := range classes {
 		harness.Get("C13").Count(k, n)
+	}
+	if viol == "" {
+		viol = checkHeaders(pr.dump, c.Src)
 	}
 	multi := classes["cut:inside-8-byte-field"]+classes["cut:inside-multibyte-varint-or-short-body"]+classes["cut:inside-long-body"] > 0
 	feats = append(feats, c.Classes...)
